@@ -196,6 +196,24 @@ func c29ShippedLookahead(c *Ctx) {
 					c29sCompare(c, f.parser, src, k, ref, nil)
 				}
 			}
+			// the same Parser object after a cancelled parse of the same or a look-alike text: nothing of
+			// the abandoned parse (memoised lookahead answers, counters, pending tokens) may leak
+			prev := src
+			if i%2 == 1 {
+				// same offsets everywhere, but the first arrow functions are parenthesised expressions
+				// here: every lookahead answer memoised at their offsets is the opposite one
+				prev = strings.Replace(src, "=>", "+ ", 1+c.Rng.Intn(6))
+			}
+			for _, pk := range []int{1, 3, 1 + c.Rng.Intn(len(ref.evs)+1)} {
+				out := c29sRunAfter(f.parser, prev, pk, src, 0)
+				c.Count("shipped " + f.parser + ": parser reused after a cancelled parse")
+				where := fmt.Sprintf("%s parser: first %q cancelled inside listener call %d, then (same Parser) %q", f.parser, firstN(prev, 300), pk, firstN(src, 300))
+				if out.panicVal != "" || out.timeout {
+					c.Violate(fmt.Sprintf("parse with a Parser reused after a cancelled parse panicked or hung (panic=%q timeout=%v)", out.panicVal, out.timeout), where)
+				} else if out.err != ref.err || c29sEvs(out.evs) != c29sEvs(ref.evs) {
+					c.Violate(fmt.Sprintf("an uncancelled parse differs from a fresh parser's when the Parser object was used for a cancelled parse before: err %q vs %q, %d vs %d events", out.err, ref.err, len(out.evs), len(ref.evs)), where)
+				}
+			}
 		}
 	}
 }
